@@ -153,6 +153,22 @@ class Ctx:
             if rc != 0:
                 raise RuntimeError('vharness tables failed: ' + out[-2000:])
             self._tables = json.loads(out)
+            # the data the theorems are regenerated from must not depend on the process (a list built by ranging over
+            # a Go map differs from run to run): dump it again from fresh processes
+            for _ in range(7):
+                rc2, out2 = sh([self.path('vharness'), 'tables'])
+                if out2 != out:
+                    try:
+                        t2 = json.loads(out2)
+                    except ValueError:
+                        t2 = {}
+                    diff = diff_paths(self._tables, t2)
+                    self.cov['broken'].append('tie:T1 tables differ between processes: ' + ', '.join(diff[:5]))
+                    self.violation('tables and regex lists dumped from the running code differ from one process to the next (%s): '
+                                   'what is built from them depends on the run' % ', '.join(diff[:5]),
+                                   {'differing': diff[:20], 'one_process': pick(self._tables, diff[:3]), 'another_process': pick(t2, diff[:3])},
+                                   concrete=False)
+                    break
         return self._tables
 
     # ---------------------------------------------------------------- Lean side
@@ -351,6 +367,30 @@ class Ctx:
             self.pid, self.tier, self.seed, cov['discharged'], cov['obligations'], cov['evaluations'],
             len(self.violations), len(self.known_hits), wall))
         return 1 if self.violations else 0
+
+
+def diff_paths(a, b, prefix=''):
+    if type(a) != type(b):
+        return [prefix or '.']
+    if isinstance(a, dict):
+        res = []
+        for k in sorted(set(a) | set(b)):
+            if k not in a or k not in b:
+                res.append(prefix + '/' + k)
+            else:
+                res += diff_paths(a[k], b[k], prefix + '/' + k)
+        return res
+    return [] if a == b else [prefix or '.']
+
+
+def pick(t, paths):
+    res = {}
+    for p in paths:
+        cur = t
+        for k in [x for x in p.split('/') if x]:
+            cur = cur.get(k, {}) if isinstance(cur, dict) else {}
+        res[p] = cur
+    return res
 
 
 def load_known(pid):
